@@ -23,53 +23,13 @@ package bufcheckserverutil
 //@ trusted pure func bufprotosource.FullNameToMessage(containerDescriptors) (m, err)
 //@ trusted pure func bufprotosource.FullNameToService(files) (m, err)
 // bufprotosource.FilePathToFile / NameToMethod / NumberToNameToEnumValue: pure contracts in /verif/specs/C03_nodelete.spec
-//@ trusted func NewRuleHandler(f) (r)
+// NewRuleHandler adapts f to the plugin SDK's handler interface. y_run(r, ctx, w, q) (spec function, see
+// /verif/specs/C03_wiring.spec) is DEFINED by this contract for the handlers it builds: the error that handler r
+// returns when it runs with context ctx, w being the ResponseWriter and q the Request it hands to f.
+//@ trusted pure func NewRuleHandler(f) (r)
+//@   callback pure f
 //@   ensures r != nil
+//@   ensures forall c context.Context, w ResponseWriter, q Request :: y_run(r, c, w, q) == f(c, w, q)
 //
-// C03: the pair constructors drive the rule function over EVERY element that exists in both the previous and the
-// current version (keyed by path / full name / name / number), and only over such pairs. Calls through f are
-// recorded by position: ghost.cbArg2 = current elements passed, ghost.cbArg3 = previous elements passed.
-//@ func NewBreakingFilePairRuleHandler(f) (r)
-//@   property C03 C04
-//@   modifies heap, ghost.cbCalls, ghost.cbArgs, ghost.cbArg0, ghost.cbArg1, ghost.cbArg2, ghost.cbArg3, ghost.fail, ghost.wfail
-//@   closure 0 ensures all-pairs-visited {C03}: err == nil ==> (forall k string :: k in first(bufprotosource.FilePathToFile(request.AgainstProtosourceFiles())) && k in first(bufprotosource.FilePathToFile(request.ProtosourceFiles())) ==> first(bufprotosource.FilePathToFile(request.ProtosourceFiles()))[k] in ghost.cbArg2 && first(bufprotosource.FilePathToFile(request.AgainstProtosourceFiles()))[k] in ghost.cbArg3)
-//@   closure 0 ensures only-pairs-visited {C04}: forall x ref :: x in ghost.cbArg2 && !(x in old(ghost.cbArg2)) ==> (exists k string :: k in first(bufprotosource.FilePathToFile(request.AgainstProtosourceFiles())) && k in first(bufprotosource.FilePathToFile(request.ProtosourceFiles())) && x == first(bufprotosource.FilePathToFile(request.ProtosourceFiles()))[k])
-//@   loop 0 invariant filePathToFile == first(bufprotosource.FilePathToFile(request.ProtosourceFiles())) && previousFilePathToFile == first(bufprotosource.FilePathToFile(request.AgainstProtosourceFiles()))
-//@   loop 0 invariant forall k string :: k in $visited && k in filePathToFile ==> filePathToFile[k] in ghost.cbArg2 && previousFilePathToFile[k] in ghost.cbArg3
-//@   loop 0 invariant forall x ref :: x in ghost.cbArg2 && !(x in old(ghost.cbArg2)) ==> (exists k string :: k in previousFilePathToFile && k in filePathToFile && x == filePathToFile[k])
-//
-//@ func NewBreakingEnumPairRuleHandler(f) (r)
-//@   property C03 C04
-//@   modifies heap, ghost.cbCalls, ghost.cbArgs, ghost.cbArg0, ghost.cbArg1, ghost.cbArg2, ghost.cbArg3, ghost.fail, ghost.wfail
-//@   closure 0 ensures all-pairs-visited {C03}: err == nil ==> (forall k string :: k in first(bufprotosource.FullNameToEnum(request.AgainstProtosourceFiles())) && k in first(bufprotosource.FullNameToEnum(request.ProtosourceFiles())) ==> first(bufprotosource.FullNameToEnum(request.ProtosourceFiles()))[k] in ghost.cbArg2 && first(bufprotosource.FullNameToEnum(request.AgainstProtosourceFiles()))[k] in ghost.cbArg3)
-//@   closure 0 ensures only-pairs-visited {C04}: forall x ref :: x in ghost.cbArg2 && !(x in old(ghost.cbArg2)) ==> (exists k string :: k in first(bufprotosource.FullNameToEnum(request.AgainstProtosourceFiles())) && k in first(bufprotosource.FullNameToEnum(request.ProtosourceFiles())) && x == first(bufprotosource.FullNameToEnum(request.ProtosourceFiles()))[k])
-//@   loop 0 invariant fullNameToEnum == first(bufprotosource.FullNameToEnum(request.ProtosourceFiles())) && previousFullNameToEnum == first(bufprotosource.FullNameToEnum(request.AgainstProtosourceFiles()))
-//@   loop 0 invariant forall k string :: k in $visited && k in fullNameToEnum ==> fullNameToEnum[k] in ghost.cbArg2 && previousFullNameToEnum[k] in ghost.cbArg3
-//@   loop 0 invariant forall x ref :: x in ghost.cbArg2 && !(x in old(ghost.cbArg2)) ==> (exists k string :: k in previousFullNameToEnum && k in fullNameToEnum && x == fullNameToEnum[k])
-//
-//@ func NewBreakingMessagePairRuleHandler(f) (r)
-//@   property C03 C04
-//@   modifies heap, ghost.cbCalls, ghost.cbArgs, ghost.cbArg0, ghost.cbArg1, ghost.cbArg2, ghost.cbArg3, ghost.fail, ghost.wfail
-//@   closure 0 ensures all-pairs-visited {C03}: err == nil ==> (forall k string :: k in first(bufprotosource.FullNameToMessage(request.AgainstProtosourceFiles())) && k in first(bufprotosource.FullNameToMessage(request.ProtosourceFiles())) ==> first(bufprotosource.FullNameToMessage(request.ProtosourceFiles()))[k] in ghost.cbArg2 && first(bufprotosource.FullNameToMessage(request.AgainstProtosourceFiles()))[k] in ghost.cbArg3)
-//@   closure 0 ensures only-pairs-visited {C04}: forall x ref :: x in ghost.cbArg2 && !(x in old(ghost.cbArg2)) ==> (exists k string :: k in first(bufprotosource.FullNameToMessage(request.AgainstProtosourceFiles())) && k in first(bufprotosource.FullNameToMessage(request.ProtosourceFiles())) && x == first(bufprotosource.FullNameToMessage(request.ProtosourceFiles()))[k])
-//@   loop 0 invariant fullNameToMessage == first(bufprotosource.FullNameToMessage(request.ProtosourceFiles())) && previousFullNameToMessage == first(bufprotosource.FullNameToMessage(request.AgainstProtosourceFiles()))
-//@   loop 0 invariant forall k string :: k in $visited && k in fullNameToMessage ==> fullNameToMessage[k] in ghost.cbArg2 && previousFullNameToMessage[k] in ghost.cbArg3
-//@   loop 0 invariant forall x ref :: x in ghost.cbArg2 && !(x in old(ghost.cbArg2)) ==> (exists k string :: k in previousFullNameToMessage && k in fullNameToMessage && x == fullNameToMessage[k])
-//
-//@ func NewBreakingServicePairRuleHandler(f) (r)
-//@   property C03 C04
-//@   modifies heap, ghost.cbCalls, ghost.cbArgs, ghost.cbArg0, ghost.cbArg1, ghost.cbArg2, ghost.cbArg3, ghost.fail, ghost.wfail
-//@   closure 0 ensures all-pairs-visited {C03}: err == nil ==> (forall k string :: k in first(bufprotosource.FullNameToService(request.AgainstProtosourceFiles())) && k in first(bufprotosource.FullNameToService(request.ProtosourceFiles())) ==> first(bufprotosource.FullNameToService(request.ProtosourceFiles()))[k] in ghost.cbArg2 && first(bufprotosource.FullNameToService(request.AgainstProtosourceFiles()))[k] in ghost.cbArg3)
-//@   closure 0 ensures only-pairs-visited {C04}: forall x ref :: x in ghost.cbArg2 && !(x in old(ghost.cbArg2)) ==> (exists k string :: k in first(bufprotosource.FullNameToService(request.AgainstProtosourceFiles())) && k in first(bufprotosource.FullNameToService(request.ProtosourceFiles())) && x == first(bufprotosource.FullNameToService(request.ProtosourceFiles()))[k])
-//@   loop 0 invariant fullNameToService == first(bufprotosource.FullNameToService(request.ProtosourceFiles())) && previousFullNameToService == first(bufprotosource.FullNameToService(request.AgainstProtosourceFiles()))
-//@   loop 0 invariant forall k string :: k in $visited && k in fullNameToService ==> fullNameToService[k] in ghost.cbArg2 && previousFullNameToService[k] in ghost.cbArg3
-//@   loop 0 invariant forall x ref :: x in ghost.cbArg2 && !(x in old(ghost.cbArg2)) ==> (exists k string :: k in previousFullNameToService && k in fullNameToService && x == fullNameToService[k])
-//
-//@ func NewBreakingMethodPairRuleHandler(f) (r)
-//@   property C03 C04
-//@   modifies heap, ghost.cbCalls, ghost.cbArgs, ghost.cbArg0, ghost.cbArg1, ghost.cbArg2, ghost.cbArg3, ghost.fail, ghost.wfail
-//@   closure 0 ensures all-pairs-visited {C03}: err == nil ==> (forall k string :: k in first(bufprotosource.NameToMethod(previousService)) && k in first(bufprotosource.NameToMethod(service)) ==> first(bufprotosource.NameToMethod(service))[k] in ghost.cbArg2 && first(bufprotosource.NameToMethod(previousService))[k] in ghost.cbArg3)
-//@   closure 0 ensures only-pairs-visited {C04}: forall x ref :: x in ghost.cbArg2 && !(x in old(ghost.cbArg2)) ==> (exists k string :: k in first(bufprotosource.NameToMethod(previousService)) && k in first(bufprotosource.NameToMethod(service)) && x == first(bufprotosource.NameToMethod(service))[k])
-//@   loop 0 invariant nameToMethod == first(bufprotosource.NameToMethod(service)) && previousNameToMethod == first(bufprotosource.NameToMethod(previousService))
-//@   loop 0 invariant forall k string :: k in $visited && k in nameToMethod ==> nameToMethod[k] in ghost.cbArg2 && previousNameToMethod[k] in ghost.cbArg3
-//@   loop 0 invariant forall x ref :: x in ghost.cbArg2 && !(x in old(ghost.cbArg2)) ==> (exists k string :: k in previousNameToMethod && k in nameToMethod && x == nameToMethod[k])
+// The contracts of the pair constructors (NewBreaking*PairRuleHandler) and of the lint constructors are in
+// zz_verif_contracts_pairing.go.
